@@ -26,7 +26,7 @@ func init() {
 		h("tx-bytes", "VerifC15TxBytes", bytesOut("txMaxLen"), "accepted", "rejected", "accepted-with-action"),
 		h("tx-mutated", "VerifC15TxMutated", mutOut, "accepted", "rejected"),
 		h("tx-fields", "VerifC15TxFields", []string{"sequences of more than txMaxFields top-level fields"}, "accepted", "rejected", "accepted-all-fields"),
-		h("tx-roundtrip", "VerifC15TxRoundTrip", []string{"more than txMaxActions actions; quick: the base is empty or one full-size base (every base round-trips by base-roundtrip)"}),
+		h("tx-roundtrip", "VerifC15TxRoundTrip", []string{"more than txMaxActions actions; bases other than the empty and one full-size base (every base round-trips by base-roundtrip)"}),
 		h("block-bytes", "VerifC15BlockBytes", bytesOut("blockMaxLen"), "accepted", "rejected", "accepted-with-tx"),
 		h("block-mutated", "VerifC15BlockMutated", mutOut, "accepted", "rejected"),
 		h("block-roundtrip", "VerifC15BlockRoundTrip", []string{"more than blockMaxTxs transactions (each one action + auth, no base)", "header fields partly present (covered by block-bytes/block-mutated)", "a non-nil block context with P-chain height 0 (the empty message: encoded as absent, decoded as nil)", "quick: P-chain heights >= 2^14"}),
